@@ -217,7 +217,31 @@ def run(cx):
                   'new stores its arguments field by field', where=b.file)
 
 
+def caliper_rule(cx):
+    """the caliper chord is the longest leg of the convex hull of the section: the scan takes every leg, the closing one included"""
+    b = cx.fn('airfoil::caliper_chord_line')
+    if not b:
+        return
+    from vpa import comp as CMP
+    H = '(call *convex_hull_2d (call *Curve2::points (param section)))'
+    I = f'(itervar (range 0 (len {H})))'
+    P0 = f'(index (call *Curve2::points (param section)) (index {H} {I}))'
+    P1 = f'(index (call *Curve2::points (param section)) (index {H} (rem (add 1 {I}) (len {H}))))'
+    ok = False
+    loops = b.loops()
+    for s in b.calls('common::points::dist'):
+        if not any(s.bb in blocks for (_h, blocks, _bk) in loops):
+            continue
+        a0, a1 = CMP.canon(cx.arg(s, 0)), CMP.canon(cx.arg(s, 1))
+        if (match(P0, a0) is not None and match(P1, a1) is not None) or (match(P0, a1) is not None and match(P1, a0) is not None):
+            ok = True
+    cx.ob('EXPR', 'caliper_chord_line:every-hull-leg', ok,
+          'the longest-leg scan measures hull[i] against its CYCLIC successor hull[(i+1) % n] for every i in 0..n: the leg that closes the hull (last vertex back to the first) is a candidate too',
+          where=b.file)
+
+
 def run_extra(cx):
+    caliper_rule(cx)
     from vpa.core import leaves
     # ---------------------------------------------------------------- tolerance provenance
     n = 0
